@@ -91,8 +91,8 @@ fn check_members(
                     let mut inner = n;
                     let mut inner_kept = kept;
                     let mut same = true;
-                    let mut involved_noncf = ids.iter().any(|i| c.noncf.contains(i))
-                        || reg::reachable(reg, &[n, kept], true, true).iter().any(|i| c.noncf.contains(i));
+                    let tainted = reg::tainted_by_coincidence(reg, c.noncf);
+                    let mut involved_noncf = reg::coincidence_involved(reg, &[n, kept], &tainted);
                     let all_fams = reg::families(reg);
                     for e in std::iter::once(&n).chain(div.enclosing.iter()) {
                         let p = reg.resolve(*e).map(|t| t.path.segments.clone()).unwrap_or_default();
@@ -174,9 +174,8 @@ pub fn judge_case(ctx: &mut Ctx, c: &FamCase) -> bool {
                     if !(reg_equiv(&r2, a, b) && reg_equiv(&r2, b, a)) {
                         // a coincidence anywhere below either entry (it makes the grouping of a
                         // nested family differ, which renaming then turns into a path difference)
-                        let below = reg::reachable(&r2, &[a, b], true, true);
-                        let involved_noncf =
-                            ids.iter().any(|i| c.noncf.contains(i)) || below.iter().any(|i| c.noncf.contains(i));
+                        let tainted = reg::tainted_by_coincidence(c.reg, c.noncf);
+                        let involved_noncf = reg::coincidence_involved(c.reg, &[a, b], &tainted);
                         ctx.violation(
                             format!(
                                 "C03:dedup-left-different-shapes:{}",
